@@ -24,7 +24,7 @@ w_expect = Fn(FW, "expect", impl=WI, slot="syntax", mode="stub", ret="res", key=
                "(match res { Ok(t) => hd_is(old(self).stream(), kind) && t == old(self).stream()[0].tok && %s && *final(report) == *old(report),"
                " Err(_) => !hd_is(old(self).stream(), kind) && %s && final(report).msgs() == old(report).msgs() + 1 && crate::expr::err_span(final(report)) == old(self).cursor_span() })" % (TAKEN, SAME_W))])
 w_next_linebreak = Fn(FW, "next_linebreak", impl=WI, slot="syntax", mode="stub", ret="res", key="Walker::next_linebreak",
-    ensures=[C("a_line_break_comes_first", "res is Some == hd_lb(self.stream())")])
+    ensures=[C("a_line_break_comes_first", "res is Some == hd_lb(self.stream())"), C("the_text_is_in_memory", "self.stream().len() < usize::MAX")])
 w_maybe_expect_linebreak = Fn(FW, "maybe_expect_linebreak", impl=WI, slot="syntax", mode="stub", ret="res", key="Walker::maybe_expect_linebreak",
     ensures=[C("takes_one_line_break", "res is Some == hd_lb(old(self).stream()) && final(self).src() == old(self).src() && (if res is Some { final(self).stream() == dec_lb(old(self).stream()) } else { %s })" % SAME_W)])
 w_next_useful_is = Fn(FW, "next_useful_is", impl=WI, slot="syntax", mode="stub", ret="res", key="Walker::next_useful_is",
@@ -127,20 +127,94 @@ binary_ops = pfn("parse_binary_ops", sp("sp_bin", "level_of(ops@)"),
                C("closure_callable", INNER_REQ), C("inner_is_the_next_tighter_level", inner_ens(spp("sp_bin", "verif_k + 1"))),
            ], ensures=[C("the_chain_is_complete", "sp_bin(src_of(*old(self)), verif_k, ws_of(*old(self)), d_of(*old(self))) == PRes::Good(view_of(lhs), self.walker.stream())")]),
            2: op_search(2, "bin_table(verif_k)")})
-parse_slice = pfn("parse_slice", sp("sp_slice"), mode="stub")
+FRAME = ("self.walker.src() == src_of(*old(self)) && self.recursion_depth == old(self).recursion_depth && old(self).recursion_depth <= 50 && self.report.msgs() >= old(self).report.msgs()"
+         " && mut_ref_future(self.walker) == mut_ref_future(old(self).walker) && mut_ref_future(self.report) == mut_ref_future(old(self).report)")
+SRC = "src_of(*old(self))"
+D = "d_of(*old(self))"
+WS0 = "ws_of(*old(self))"
+parse_slice = pfn("parse_slice", sp("sp_slice"))
+parse_slice_short = pfn("parse_slice_short", sp("sp_slice_short"))
+parse_unary = pfn("parse_unary", sp("sp_unary"), closures={1: closure(sps("sp_call"))},
+    inserts=[Insert("self.parse_unary_ops(", "proof { lemma_tables_useful(); }\n\t\t", where="before")])
+unary_ops = pfn("parse_unary_ops", sp("sp_unary"),
+    requires=[C("the_prefix_operator_table", "same_table(unary_table(), ops@)"), C("closure_callable", INNER_REQ), C("inner_is_the_call_level", inner_ens(spp("sp_call")))],
+    for_to_while=[1],
+    loops={1: Loop(before="\t\tproof { lemma_tables_useful(); assert(ops@ =~= unary_table()); }", invariant=[
+        C("no_earlier_entry_matches", "verif_next_1 <= verif_vec_1@.len() && verif_vec_1@ == ops@ && ops@ == unary_table() && find_op(ops@, hd_kind(%s), 0) == find_op(ops@, hd_kind(%s), verif_next_1 as int)" % (WS0, WS0)),
+        C("nothing_taken_yet", "*self.walker == *old(self).walker && *self.report == *old(self).report && self.recursion_depth == old(self).recursion_depth && old(self).recursion_depth <= 50 && mut_ref_future(self.walker) == mut_ref_future(old(self).walker) && mut_ref_future(self.report) == mut_ref_future(old(self).report)"),
+        C("closure_callable", INNER_REQ), C("inner_is_the_call_level", inner_ens(spp("sp_call"))),
+    ], decreases="verif_vec_1@.len() - verif_next_1")})
+VIEWS_PUSH = "proof { lemma_views_push(%s, %s); }"
+parse_call = pfn("parse_call", sp("sp_call"),
+    rewrites=[Rewrite("let mut args = Vec::new();", "let mut args: Vec<Expr> = Vec::new();", rule="R10", why="type ascription (the loop contract mentions the vector before inference has fixed its type)")],
+    inserts=[Insert("let mut args: Vec<Expr> = Vec::new();", "let ghost verif_target = sp_args(%s, self.walker.stream(), %s, view_of(leaf), Seq::empty());\n\t\tproof { assert(views(Seq::<Expr>::empty()) =~= Seq::<SExpr>::empty()); }\n\t\t" % (SRC, D), where="after"),
+             Insert("args.push(self.parse_expr()?);", "let ghost verif_a0 = args@;\n\t\t\t", where="before"),
+             Insert("args.push(self.parse_expr()?);", "\n\t\t\tproof { lemma_views_push(verif_a0, args@[args@.len() - 1]); assert(args@ =~= verif_a0.push(args@[args@.len() - 1])); }", where="after")],
+    loops={1: Loop(invariant=[
+        C("the_argument_list_so_far", "sp_args(%s, self.walker.stream(), %s, view_of(leaf), views(args@)) == verif_target" % (SRC, D)),
+        C("frame", FRAME + " && self.walker.stream().len() < %s.len() && verif_target == sp_call(%s, %s, %s)" % (WS0, SRC, WS0, D)),
+    ], ensures=[C("a_closing_parenthesis_is_next", "hd_is(self.walker.stream(), TokenKind::ParenClose)")])})
+parse_leaf = pfn("parse_leaf", sp("sp_leaf"),
+    ensures=[C("expected_expression_is_reported_at_the_cursor", "!leaf_start(hd_kind(%s)) ==> res is Err && err_span(final(self).report) == old(self).walker.cursor_span()" % WS0, ["C13", "C03"])])
+parse_block = pfn("parse_block", "(if hd_is(%s, TokenKind::BraceOpen) { sp_block(%s, tl(%s), %s, %s[0].tok.span, Seq::empty()) } else { PRes::Bad })" % (WS0, SRC, WS0, D, WS0),
+    rewrites=[Rewrite("let mut exprs = Vec::new();", "let mut exprs: Vec<Expr> = Vec::new();", rule="R10", why="type ascription")],
+    inserts=[Insert("let mut exprs: Vec<Expr> = Vec::new();", "let ghost verif_target = sp_block(%s, self.walker.stream(), %s, tk_open_span, Seq::empty());\n\t\tproof { assert(views(Seq::<Expr>::empty()) =~= Seq::<SExpr>::empty()); }\n\t\t" % (SRC, D), where="after"),
+             Insert("exprs.push(self.parse_expr()?);", "let ghost verif_a0 = exprs@;\n\t\t\t", where="before"),
+             Insert("exprs.push(self.parse_expr()?);", "\n\t\t\tproof { lemma_views_push(verif_a0, exprs@[exprs@.len() - 1]); assert(exprs@ =~= verif_a0.push(exprs@[exprs@.len() - 1])); }", where="after")],
+    loops={1: Loop(invariant=[
+        C("the_block_so_far", "sp_block(%s, self.walker.stream(), %s, tk_open_span, views(exprs@)) == verif_target" % (SRC, D)),
+        C("frame", FRAME + " && self.walker.stream().len() < %s.len() && hd_is(%s, TokenKind::BraceOpen) && tk_open_span == %s[0].tok.span && verif_target == sp_block(%s, tl(%s), %s, %s[0].tok.span, Seq::empty())" % (WS0, WS0, WS0, SRC, WS0, D, WS0)),
+    ], ensures=[C("a_closing_brace_is_next", "hd_is(self.walker.stream(), TokenKind::BraceClose)")])})
+parse_paren = pfn("parse_parenthesized", "(if hd_is(%s, TokenKind::ParenOpen) { match sp_expr(%s, tl(%s), %s) { PRes::Bad => PRes::Bad, PRes::Good(e, w1) => if hd_is(w1, TokenKind::ParenClose) { PRes::Good(e, tl(w1)) } else { PRes::Bad } } } else { PRes::Bad })" % (WS0, SRC, WS0, D))
+parse_variable = pfn("parse_variable", "sp_dots(%s, %s, dummy(), 0)" % (SRC, WS0),
+    rewrites=[Rewrite("let mut hierarchy_level = 0;", "let mut hierarchy_level: usize = 0;", rule="R10", why="type ascription"),
+              Rewrite("let mut hierarchy = Vec::new();", "let mut hierarchy: Vec<String> = Vec::new();", rule="R10", why="type ascription"),
+              Rewrite("self.walker.get_span_excerpt(tk_name.span).to_string()", "verif_to_string(self.walker.get_span_excerpt(tk_name.span))", rule="R16", why="str::to_string -> prelude wrapper (the same text)")],
+    inserts=[Insert("let mut hierarchy: Vec<String> = Vec::new();", "\n\t\tproof { assert(texts(Seq::<String>::empty()) =~= Seq::<Seq<char>>::empty()); }", where="after"),
+             Insert("hierarchy.push(name);", "let ghost verif_h0 = hierarchy@;\n\t\t\t", where="before"),
+             Insert("hierarchy.push(name);", "\n\t\t\tproof { assert(texts(hierarchy@) =~= texts(verif_h0).push(hierarchy@[hierarchy@.len() - 1]@)); }", where="after")],
+    loops={1: Loop(invariant=[
+               C("the_dots_so_far", "sp_dots(%s, self.walker.stream(), span, hierarchy_level as nat) == sp_dots(%s, %s, dummy(), 0)" % (SRC, SRC, WS0)),
+               C("frame", FRAME + " && *self.report == *old(self).report && self.walker.stream().len() + hierarchy_level == %s.len() && (hierarchy_level > 0 ==> %s.len() < usize::MAX)" % (WS0, WS0)),
+           ], ensures=[C("the_names_follow", "sp_dots(%s, %s, dummy(), 0) == sp_names(%s, self.walker.stream(), span, hierarchy_level as nat, Seq::empty())" % (SRC, WS0, SRC))]),
+           2: Loop(invariant_except_break=[
+               C("the_names_so_far", "sp_names(%s, self.walker.stream(), span, hierarchy_level as nat, texts(hierarchy@)) == sp_dots(%s, %s, dummy(), 0)" % (SRC, SRC, WS0)),
+           ], invariant=[
+               C("frame", FRAME + " && self.walker.stream().len() <= %s.len()" % WS0),
+           ], ensures=[C("the_variable_is_complete", "sp_dots(%s, %s, dummy(), 0) == PRes::Good(SExpr::Var(span, hierarchy_level as nat, texts(hierarchy@)), self.walker.stream()) && self.walker.stream().len() < %s.len()" % (SRC, WS0, WS0))])})
+def leaf_case(kind, good):
+    return "(if hd_is(%s, TokenKind::%s) { %s } else { PRes::Bad })" % (WS0, kind, good)
+TOK = WS0 + "[0].tok.span"
+parse_number = pfn("parse_number", leaf_case("Number", "match number_of(%s, text_at(%s, %s)) { Some(v) => PRes::Good(SExpr::Int(%s, v), tl(%s)), None => PRes::Bad }" % (TOK, SRC, TOK, TOK, WS0)),
+    rewrites=[Rewrite(r"syntax::excerpt_as_bigint\(\s*Some\(self\.report\),", "verif_excerpt_as_bigint_loud(self.report,", regex=True, rule="R16",
+                      why="`excerpt_as_bigint(Some(report), ..)` -> prelude wrapper taking the report directly (Option<&mut Report> parameters cannot be given a contract); assumed: the value U-literal proves, and a diagnostic on every failure (each `return Err` there is preceded by `if let Some(report) = report { report.error_span(..) }`)")])
+parse_true = pfn("parse_boolean_true", leaf_case("KeywordTrue", "PRes::Good(SExpr::Bool(%s, true), tl(%s))" % (TOK, WS0)))
+parse_false = pfn("parse_boolean_false", leaf_case("KeywordFalse", "PRes::Good(SExpr::Bool(%s, false), tl(%s))" % (TOK, WS0)))
+parse_string = pfn("parse_string", leaf_case("String", "match string_of(%s, text_at(%s, %s)) { Some(v) => PRes::Good(SExpr::Str(%s, v, \"utf8\"@), tl(%s)), None => PRes::Bad }" % (TOK, SRC, TOK, TOK, WS0)),
+    rewrites=[Rewrite('"utf8".to_string()', 'verif_to_string("utf8")', rule="R16", why="str::to_string -> prelude wrapper (the same text)")])
 parse_asm = pfn("parse_asm", sp("sp_asm"), mode="stub")
+new_parser = Fn(F, "new", impl=PI, impl_header=PI, slot="expr", ret="res", key="ExpressionParser::new", props=P,
+    ensures=[C("a_fresh_parser_over_the_same_report_and_walker", "*res.report == *old(report) && *res.walker == *old(walker) && mut_ref_future(res.report) == mut_ref_future(report) && mut_ref_future(res.walker) == mut_ref_future(walker) && res.recursion_depth == 0")])
+TOP = "sp_expr(old(walker).src(), old(walker).stream(), 0)"
+parse_top = Fn(F, "parse", slot="expr", ret="res", key="parser::parse", props=P,
+    ensures=[C("agrees_with_the_reference_grammar", "(match res { Ok(e) => %s == PRes::Good(view_of(e), final(walker).stream()), Err(_) => %s is Bad && final(report).msgs() > old(report).msgs() }) && final(report).msgs() >= old(report).msgs()" % (TOP, TOP), P)],
+    rewrites=MODPATH)
+report_new = Fn(RF, "new", impl="Report", slot="diagn", mode="stub", ret="res", key="Report::new")
+parse_optional = Fn(F, "parse_optional", slot="expr", ret="res", key="parser::parse_optional", props=["C05", "C19"],
+    ensures=[C("agrees_with_the_reference_grammar", "(match res { Some(e) => %s == PRes::Good(view_of(e), final(walker).stream()), None => %s is Bad })" % (TOP, TOP), ["C05", "C19"])],
+    rewrites=MODPATH)
 
 UNIT = Unit(
     "U-parser", "u_parser/skeleton.rs",
     items=[
-        r_error_span, msg_error_span, r_dedup, span_join, span_dummy,
+        r_error_span, msg_error_span, r_dedup, report_new, span_join, span_dummy,
         Type(FT, "struct", "Token", slot="syntax", derive="drop"), Type(FT, "enum", "TokenKind", slot="syntax", derive="Clone, Copy"),
         w_maybe_expect, w_expect, w_next_linebreak, w_maybe_expect_linebreak, w_next_useful_is, w_cursor_span, w_span_excerpt, x_bigint, x_string,
         Type(FE, "enum", "Expr", slot="expr"), Type(FE, "enum", "Value", slot="expr"), Type(FE, "struct", "ExprString", slot="expr"),
         Type(FE, "enum", "UnaryOp", slot="expr", derive="Clone, Copy"), Type(FE, "enum", "BinaryOp", slot="expr", derive="Clone, Copy"),
         Type("src/expr/mod.rs", "const", "PARSE_RECURSION_DEPTH_MAX", slot="expr"),
         Type(F, "struct", "ExpressionParser", slot="expr"),
-        expr_span, check_limit, parse_expr, parse_ternary, parse_assignment, right_assoc, binary_ops, parse_slice] + level_fns + [
+        expr_span, new_parser, check_limit, parse_expr, parse_ternary, parse_assignment, right_assoc, binary_ops] + level_fns + [parse_slice, parse_slice_short, parse_unary, unary_ops, parse_call, parse_leaf, parse_block, parse_paren, parse_variable, parse_number, parse_true, parse_false, parse_string, parse_asm, parse_top, parse_optional,
     ],
     serves=["C05", "C19", "C13", "C03"],
     carry_facts_into_loops=False,
